@@ -1610,6 +1610,44 @@ cannot checkpoint user %u's queue", u);
 checkpointed user %u", u);
 		}
 	}
+	/* users who haven't got a task anymore, and therefore went unseen
+	 * above, mustn't keep their files, or what they've cancelled would
+	 * be back after a restart */
+	with (int dfd = dup(qdirfd)) {
+		static const char prfx[] = "echsq_";
+		static const char sufx[] = ".ics";
+		DIR *d;
+
+		if (UNLIKELY(dfd < 0)) {
+			rc = -1;
+			break;
+		} else if (UNLIKELY((d = fdopendir(dfd)) == NULL)) {
+			(void)close(dfd);
+			rc = -1;
+			break;
+		}
+		rewinddir(d);
+		for (struct dirent *dp; (dp = readdir(d)) != NULL;) {
+			const char *const dn = dp->d_name;
+			char *on;
+			long unsigned int u;
+
+			if (strncmp(dn, prfx, strlenof(prfx))) {
+				/* not our thing */
+				continue;
+			}
+			u = strtoul(dn + strlenof(prfx), &on, 10);
+			if (on == dn + strlenof(prfx) || strcmp(on, sufx)) {
+				/* not a queue file */
+				continue;
+			} else if (seenp(&sntr, (uid_t)u) != -1) {
+				/* just written, or tried at least */
+				continue;
+			}
+			(void)unlinkat(qdirfd, dn, 0);
+		}
+		closedir(d);
+	}
 	free(snds);
 	return rc;
 }
